@@ -157,8 +157,20 @@ def run(ctx):
                 f.write(json.dumps(e) + "\n")
     verdict, vs = ctx.validate("C17Trace.tla", "C17_trace.cfg", trace)
     nviol, known = H.report(ctx, verdict["bad"], None, None)
+
+    def _smaller_answer(evs):
+        """a truncated read that answered with an error is recorded as having answered 'ok' with another value"""
+        for e in evs:
+            if e.get("op") == "fault" and isinstance(e.get("res"), dict):
+                for call, r in e["res"].items():
+                    if isinstance(r, str) and r == "err" and call != "open":
+                        e["res"][call] = "ok:altered"
+                        return evs
+        return None
+    selftest = H.binding_selftest(ctx, "C17Trace.tla", "C17_trace.cfg", trace, [("error-recorded-as-different-answer", _smaller_answer)], max_cases=3)
     st = verdict["stats"]
     cov = {
+        "binding_selftest": selftest,
         "evaluations": st["faults"] + len(verdict["bad"]),
         "distinct_nontrivial": ntrunc + ninj,
         "rule": "faults = every truncation length of the two library-written sample files (v0 and v2 superblock: groups, attributes, contiguous, "
